@@ -33,7 +33,7 @@ def tags(rec):
 
 
 def run(ev, vd):
-    make(fbin("collections"))
+    make(fbin("collections"), cbin("collections"))
     for mod in ("MCBitsetReset", "MCAtomicOps"):
         p = os.path.join(SP, mod + ".tla")
         if not os.path.exists(p):
@@ -48,6 +48,18 @@ def run(ev, vd):
         vd.violation(dict(component="collections-harness", op="crash"),
                      "collections harness crashed rc=%d: %s" % (rc, out[-300:]), dict(out=out[-2000:]))
         return
+    # controlled schedules over the CAS loops / concurrent collections (flavour C): every atomic operation is a scheduling point
+    trc = os.path.join(BUILD, "tmp", "collections_ctl.ndjson")
+    rc2, out2, dt2 = sh([cbin("collections"), trc, str(ev.seed), tier(), "ctl"], timeout=900, env={"GALOIS_DO_NOT_BIND_THREADS": "1"})
+    if rc2 in (43, 44):
+        vd.violation(dict(component="collections-ctl", op="hang"), "controlled run of the concurrent collections did not finish: %s" % out2[-300:], dict(out=out2[-1500:]))
+    elif rc2 != 0:
+        vd.violation(dict(component="collections-ctl", op="crash"), "collections harness (ctl) crashed rc=%d: %s" % (rc2, out2[-300:]), dict(out=out2[-1500:]))
+    else:
+        with open(tr, "a") as fa, open(trc) as fc:
+            for line in fc:
+                fa.write(line)
+        ev.cov["ctl_records"] = sum(1 for _ in open(trc))
     res = tv.validate_sharded(os.path.join(SP, "TraceCollections.tla"), tr, timeout=1500)
     ev.cov["traces_validated_against_impl"] += res["records"] - len(res["rejects"])
     ev.cov["states"] += res["states"]
